@@ -148,6 +148,26 @@ def run (s : St) : List Label → St
   | [] => s
   | l :: ls => run (step s l) ls
 
+/-! ## one at a time -/
+
+/-- all five steps of relay `i`, uninterrupted -/
+def relayBlock (i : Nat) : List Label :=
+  [.relay i .validate, .relay i .get, .relay i .add, .relay i .set, .relay i .respond]
+
+/-- the claim sender's two steps, uninterrupted -/
+def claimBlock : List Label := [.cread, .cseal]
+
+inductive Turn where
+  | relay (i : Nat)
+  | claim
+  deriving DecidableEq, Repr
+
+/-- A sequential schedule: whole turns, in any order (a repeated turn finds nothing left to do). -/
+def seqSched : List Turn → List Label
+  | [] => []
+  | .relay i :: ts => relayBlock i ++ seqSched ts
+  | .claim :: ts => claimBlock ++ seqSched ts
+
 /-! ## the property, as a decidable predicate on a final state -/
 
 def storedProofs (s : St) : List P := (s.stored.map (·.proofs)).getD []
